@@ -611,6 +611,139 @@ def vinterp(inp):
     return {"ok": witness is None, "cases": cases, "witness": witness}
 
 
+def update_matrix(inp):
+    """only_update_hydraulic_matrix: build_system_matrix on ALL small hydraulic pits (scope below), three ways:
+    plain (option off), first call with the option on (empty cache), second call with the option on after the
+    solver used the cached matrix (spsolve) and after every value column changed -- dense matrices and load
+    vectors must agree.  Pits whose COO positions are not pairwise distinct (a pressure-control branch whose
+    controlled node is one of its own ends) are reported separately (finding F16)."""
+    from scipy.sparse.linalg import spsolve
+    from pandapipes.pf.build_system_matrix import build_system_matrix
+    from pandapipes import idx_branch as IB, idx_node as IN
+    rng = np.random.default_rng(int(inp.get("seed", 0)) + 11)
+    max_n, max_b = int(inp.get("max_nodes", 3)), int(inp.get("max_branches", 3))
+    vcols_b = [IB.JAC_DERIV_DM, IB.JAC_DERIV_DP, IB.JAC_DERIV_DP1, IB.JAC_DERIV_DM_NODE, IB.LOAD_VEC_NODES_FROM,
+               IB.LOAD_VEC_NODES_TO, IB.LOAD_VEC_BRANCHES]
+    vcols_n = [IN.LOAD, IN.MDOTSLACKINIT]
+    out = {"distinct": {"ok": True, "cases": 0, "witness": None}, "duplicate": {"ok": True, "cases": 0, "witness": None}}
+
+    def fill(bp, npit):
+        bp[:, vcols_b] = rng.uniform(0.5, 2.0, size=(len(bp), len(vcols_b))) * rng.choice([-1, 1], size=(len(bp), len(vcols_b)))
+        npit[:, vcols_n] = rng.uniform(-2.0, 2.0, size=(len(npit), len(vcols_n)))
+
+    def dense(res):
+        A, b = res
+        return np.asarray(A.todense(), dtype=float).copy(), np.asarray(b, dtype=float).copy()
+
+    for nn in range(1, max_n + 1):
+        for ntypes in itertools.product((0, IN.P, IN.PC), repeat=nn):
+            if IN.P not in ntypes:
+                continue
+            npc = sum(1 for t in ntypes if t == IN.PC)
+            for nb in range(0, max_b + 1):
+                for ends in itertools.product([(a, b) for a in range(nn) for b in range(nn) if a != b], repeat=nb):
+                    for pcb in itertools.combinations(range(nb), npc) if npc <= nb else ():
+                        bp = np.zeros((nb, IB.branch_cols), dtype=np.float64)
+                        npit = np.zeros((nn, IN.node_cols), dtype=np.float64)
+                        npit[:, IN.NODE_TYPE] = ntypes
+                        npit[np.array(ntypes) == IN.P, IN.JAC_DERIV_MSL] = -1.
+                        for k, (a, b) in enumerate(ends):
+                            bp[k, IB.FROM_NODE], bp[k, IB.TO_NODE] = a, b
+                        bp[list(pcb), IB.BRANCH_TYPE] = IB.PC
+                        pcn = [i for i, t in enumerate(ntypes) if t == IN.PC]
+                        dup = any(pcn[j] in ends[b] for j, b in enumerate(pcb))
+                        cls = out["duplicate" if dup else "distinct"]
+                        cls["cases"] += 1
+                        fill(bp, npit)
+                        obs = None
+                        try:
+                            plain = {"_options": {"only_update_hydraulic_matrix": False, "use_numba": False}, "_internal_data": {}}
+                            upd = {"_options": {"only_update_hydraulic_matrix": True, "use_numba": False}, "_internal_data": {}}
+                            A0, b0 = dense(build_system_matrix(plain, bp, npit, False))
+                            r1 = build_system_matrix(upd, bp, npit, False)
+                            A1, b1 = dense(r1)
+                            if not (np.array_equal(A0, A1) and np.array_equal(b0, b1)):
+                                obs = "first call with the option differs from the plain matrix"
+                            if obs is None:
+                                try:
+                                    spsolve(r1[0], r1[1])
+                                except Exception:  # noqa  (singular random systems are irrelevant here)
+                                    pass
+                                fill(bp, npit)
+                                plain["_internal_data"] = {}
+                                A2, b2 = dense(build_system_matrix(plain, bp, npit, False))
+                                A3, b3 = dense(build_system_matrix(upd, bp, npit, False))
+                                if not (np.allclose(A2, A3, rtol=1e-13, atol=0) and np.array_equal(b2, b3)):
+                                    obs = "second call (cached structure, new values) differs from the plain matrix"
+                        except Exception as e:  # noqa
+                            obs = "%s: %s" % (type(e).__name__, str(e)[:160])
+                        if obs is not None and cls["witness"] is None:
+                            cls["ok"] = False
+                            cls["witness"] = {"node_types": list(ntypes), "branch_ends": [list(e) for e in ends],
+                                              "pc_branches": list(pcb), "observed": obs}
+    return out
+
+
+def update_pipeline(inp):
+    """whole calculation: a sequence of pipeflow calls with reuse_internal_data + only_update_hydraulic_matrix and
+    loads changed between the calls gives, call by call, the results of a fresh calculation of the same net
+    (both engines)."""
+    import copy
+    import pandapipes as pp
+    cases, witness = 0, None
+
+    def build(fluid):
+        net = pp.create_empty_network(fluid=fluid)
+        j = [pp.create_junction(net, pn_bar=5, tfluid_k=300, height_m=h) for h in (0, 2, 1, 3, 0)]
+        pp.create_ext_grid(net, j[0], p_bar=5, t_k=300)
+        pp.create_pipe_from_parameters(net, j[0], j[1], 0.4, 100., k_mm=0.1, sections=2)
+        pp.create_pipe_from_parameters(net, j[1], j[2], 0.3, 80., k_mm=0.1)
+        pp.create_pipe_from_parameters(net, j[2], j[3], 0.5, 80., k_mm=0.2, sections=3)
+        pp.create_pipe_from_parameters(net, j[1], j[3], 0.7, 100., k_mm=0.1)
+        pp.create_valve(net, j[3], j[4], "ju", 100., opened=True)
+        pp.create_sink(net, j[2], 0.2)
+        pp.create_sink(net, j[4], 0.3)
+        pp.create_source(net, j[3], 0.05)
+        return net
+
+    def res(net):
+        return {t: net[t].to_numpy(dtype=float, copy=True) for t in net.keys()
+                if isinstance(t, str) and t.startswith("res_") and hasattr(net[t], "to_numpy") and len(net[t])}
+
+    for fluid in ("water", "lgas"):
+        for use_numba in (False, True):
+            for friction in ("nikuradse", "swamee-jain"):
+                net = build(fluid)
+                seq = [(0.2, 0.3, 0.05), (0.5, 0.1, 0.0), (0.0, 0.0, 0.0), (0.05, 0.6, 0.3)]
+                for step, (s0, s1, src) in enumerate(seq):
+                    cases += 1
+                    net.sink.loc[0, "mdot_kg_per_s"], net.sink.loc[1, "mdot_kg_per_s"] = s0, s1
+                    net.source.loc[0, "mdot_kg_per_s"] = src
+                    fresh = copy.deepcopy(net)
+                    for k in [k for k in list(fresh.keys()) if isinstance(k, str) and k.startswith("_")]:
+                        del fresh[k]
+                    def run(n_, **kw):
+                        try:
+                            pp.pipeflow(n_, use_numba=use_numba, friction_model=friction, **kw)
+                            return res(n_)
+                        except Exception as e:  # noqa
+                            return "%s: %s" % (type(e).__name__, str(e)[:120])
+                    a = run(net, reuse_internal_data=True, only_update_hydraulic_matrix=True)
+                    b = run(fresh)
+                    if isinstance(a, str) or isinstance(b, str):
+                        obs = None if (isinstance(a, str) and isinstance(b, str) and a.split(":")[0] == b.split(":")[0]) \
+                            else "with the options: %s / fresh calculation: %s" % (a if isinstance(a, str) else "results",
+                                                                                  b if isinstance(b, str) else "results")
+                    else:
+                        bad = [t for t in b if t not in a or a[t].shape != b[t].shape
+                               or not np.allclose(a[t], b[t], rtol=1e-9, atol=1e-11, equal_nan=True)]
+                        obs = ("tables differ: %s" % bad) if bad else None
+                    if obs is not None and witness is None:
+                        witness = {"fluid": fluid, "use_numba": use_numba, "friction_model": friction, "step": step,
+                                   "loads": [s0, s1, src], "observed": obs}
+    return {"ok": witness is None, "cases": cases, "witness": witness}
+
+
 def main():
     inp = json.load(sys.stdin)
     fn = globals()[inp["what"]]
